@@ -38,7 +38,8 @@ Bases == <<
   <<Text("a"), ForS("", "v", NameE("hh"), NoE, <<Text("["), PrintS(NameE("v")), Text("]")>>, <<Text("E")>>, TRUE), Text("b")>>
 >>
 
-ErrKinds == <<"filter", "func", "test", "noniter", "block", "include", "syntax", "macro">>
+ErrKinds == <<"filter", "func", "test", "noniter", "block", "include", "syntax", "argfirst", "argmid", "argfilter", "macro">>
+DivZero == Bin("%", IntE(1), IntE(0))
 ErrStmt(kind) ==
   CASE kind = "filter" -> PrintS(Pipe(NameE("x"), "nosuchfilter", <<>>))
     [] kind = "func" -> PrintS(CallE("nosuchfunc", <<>>))
@@ -47,6 +48,10 @@ ErrStmt(kind) ==
     [] kind = "block" -> PrintS(CallE("block", <<StrE("nosuchblock")>>))
     [] kind = "include" -> IncludeS(StrE("missing"), NoE, FALSE)
     [] kind = "syntax" -> IncludeS(StrE("bad"), NoE, FALSE)
+    (* a failing argument that is not the last one: every argument's error counts *)
+    [] kind = "argfirst" -> PrintS(CallE("id", <<DivZero, StrE("x")>>))
+    [] kind = "argmid" -> PrintS(CallE("nul", <<StrE("a"), DivZero, StrE("x")>>))
+    [] kind = "argfilter" -> PrintS(Pipe(NameE("x"), "wrap", <<DivZero, StrE("y")>>))
     [] OTHER -> <<>>
 
 InsAt(stmts, p, st) == SubSeq(stmts, 1, p) \o <<st>> \o SubSeq(stmts, p + 1, Len(stmts))
@@ -60,11 +65,13 @@ InsertInBody(stmts, st) ==
 Programs ==
   { [t |-> Bases[b], tag |-> "base"] : b \in 1..Len(Bases) }
   \cup UNION { { [t |-> InsAt(Bases[b], p, ErrStmt(ErrKinds[e])), tag |-> "err-" \o ErrKinds[e]]
-                   : p \in 0..Len(Bases[b]), e \in 1..7 }
+                   : p \in 0..Len(Bases[b]), e \in 1..10 }
                  : b \in {q \in 1..Len(Bases) : Bases[q][1].k # "extends"} }
   \cup { [t |-> InsertInBody(Bases[b], ErrStmt(ErrKinds[e])), tag |-> "errbody-" \o ErrKinds[e]]
-           : b \in {q \in 1..Len(Bases) : FirstBody(Bases[q]) # 0}, e \in 1..7 }
-  \cup { [t |-> <<ImportS(StrE("lib"), "L"), Text("a"), PrintS(AttrCall(NameE("L"), "nope", <<>>)), Text("b")>>, tag |-> "err-macro"] }
+           : b \in {q \in 1..Len(Bases) : FirstBody(Bases[q]) # 0}, e \in 1..10 }
+  \cup { [t |-> <<ImportS(StrE("lib"), "L"), Text("a"), PrintS(AttrCall(NameE("L"), "nope", <<>>)), Text("b")>>, tag |-> "err-macro"],
+         [t |-> <<FromS(StrE("lib"), << <<"m", "m">> >>), Text("a"), PrintS(CallE("m", <<DivZero, StrE("x")>>)), Text("b")>>, tag |-> "err-argmacro"],
+         [t |-> <<ImportS(StrE("lib"), "L"), Text("a"), PrintS(AttrCall(NameE("L"), "m", <<DivZero, StrE("x")>>)), Text("b")>>, tag |-> "err-argmacro"] }
   (* every unparseable template, reached as the entry itself, by include, extends, embed, import, from and use *)
   \cup UNION { { [t |-> Bad(v), tag |-> "err-unparseable-entry"],
                  [t |-> <<Text("a"), IncludeS(StrE(BadName(v)), NoE, FALSE), Text("b")>>, tag |-> "err-unparseable-include"],
